@@ -212,25 +212,6 @@ theorem full_normal_form_invariant (c : Cfg K) (res : K → Bool) (hsel : c.sel 
 
 /-! ### consequences of `k0 = k3` in every monomial -/
 
-theorem eval_pderiv_eq_zero (f : MvPolynomial (Fin 6) K) (z : Fin 6 → K) (i j : Fin 6) (hij : i ≠ j) (hz : z j = 0)
-    (hs : ∀ s ∈ f.support, s i = s j) : MvPolynomial.eval z (pderiv i f) = 0 := by
-  conv_lhs => rw [f.as_sum]
-  rw [map_sum, map_sum]
-  apply Finset.sum_eq_zero
-  intro s hsupp
-  rw [pderiv_monomial, eval_monomial]
-  by_cases h0 : s i = 0
-  · simp [h0]
-  · have hj : (s - Finsupp.single i 1 : Fin 6 →₀ ℕ) j ≠ 0 := by
-      have := hs s hsupp
-      simp only [Finsupp.coe_tsub, Pi.sub_apply, Finsupp.single_apply, hij, ↓reduceIte]
-      omega
-    have : ((s - Finsupp.single i 1).prod fun n e => z n ^ e) = 0 := by
-      apply Finset.prod_eq_zero (Finsupp.mem_support_iff.mpr hj)
-      show z j ^ _ = 0
-      rw [hz, zero_pow hj]
-    rw [this, mul_zero]
-
 /-- **the centre manifold is invariant and `q1 p1` is a formal integral**: if every monomial of `H` has `k0 = k3`, then
 `∂H/∂p1` and `∂H/∂q1` vanish at every point with `q1 = p1 = 0` (so `q1' = p1' = 0` there), and `{q1 p1, H} = 0` -/
 theorem cm_invariant (H : Poly K) (hgood : ∀ m : Mono, coeff H m ≠ 0 → m.a0 = m.a3) :
@@ -286,6 +267,29 @@ theorem partial_normal_form_cm_invariant (c : Cfg K) (hsel : c.sel = selPartial)
       rcases hu with h | h | h <;> (rw [h] at e; rw [← e] at hk; exact hk rfl)
     · exact hm (nf t.1 (by omega) hb.2 (by simp [hsel, selPartial, hk]) (hng _ hk))
   exact ⟨hgood, (cm_invariant _ hgood).1, (cm_invariant _ hgood).2⟩
+
+/-- `_zero_q1p1` keeps exactly the monomials that contain neither `q1` nor `p1` … -/
+theorem zero_q1p1_spec (tiny : K → Bool) (htiny : ∀ c, tiny c = true → c = 0) (p : Poly K) (m : Mono) :
+    coeff (zeroQ1P1 tiny p) m = if m.a0 = 0 ∧ m.a3 = 0 then coeff p m else 0 := by
+  have e : zeroQ1P1 tiny p = (clean tiny p).filter (fun t => (fun k : Mono => k.a0 == 0 && k.a3 == 0) t.1) := by
+    unfold zeroQ1P1 clean
+    rw [List.filter_filter]
+    congr 1
+    funext t
+    cases tiny t.2 <;> simp
+  rw [e, coeff_filter_mono (fun k : Mono => k.a0 == 0 && k.a3 == 0) (clean tiny p) m, coeff_clean htiny]
+  by_cases h0 : m.a0 = 0 <;> by_cases h3 : m.a3 = 0 <;> simp [h0, h3]
+
+/-- … and therefore does not change the value of an expansion at any point of the centre manifold `q1 = p1 = 0`
+(`restrict=True` expansions agree there with the unrestricted ones) -/
+theorem zero_q1p1_on_cm (tiny : K → Bool) (htiny : ∀ c, tiny c = true → c = 0) (p : Poly K) (z : ℕ → K)
+    (h0 : z 0 = 0) (h3 : z 3 = 0) : evalPoly z (zeroQ1P1 tiny p) = evalPoly z p := by
+  rw [evalPoly_toMv, evalPoly_toMv]
+  apply eval_eq_of_coeff_eq_on_cm _ _ _ (by simpa using h0) (by simpa using h3)
+  intro s e0 e3
+  rw [← Mono.toFinsupp_ofFun s, coeff_toMv, coeff_toMv, zero_q1p1_spec tiny htiny]
+  have : (Mono.ofFun s).a0 = 0 ∧ (Mono.ofFun s).a3 = 0 := ⟨e0, e3⟩
+  rw [if_pos this]
 
 end field
 
